@@ -9,7 +9,11 @@ CONSTANT ResultFile, MaxReport
 Results == ndJsonDeserialize(ResultFile)
 VARIABLES l, viol, cnt
 ovars == <<l, viol, cnt>>
-Names == {"C18_InOrder", "C18_OneResultPerElement", "C18_StopsAtFailure", "C18_SignalsFailure", "Conf_CallOutcomeAsPlanned"}
+Names == {"C18_InOrder", "C18_OneResultPerElement", "C18_StopsAtFailure", "C18_SignalsFailure", "C18_ElementsIndependent", "Conf_CallOutcomeAsPlanned"}
+\* which positions carry attributes of their own (Bulk.tla Rich / Own); "all" uses one key per action kind
+Rich(r, k) == r.pat = "all" \/ (r.pat = "odd" /\ k % 2 = 1) \/ (r.pat = "even" /\ k % 2 = 0)
+ExpIk(r, k) == IF ~Rich(r, k) THEN "" ELSE IF r.pat = "all" THEN "key-" \o r.bulk[k].kind ELSE "key-" \o ToString(k)
+ExpAttr(r, k) == IF Rich(r, k) /\ r.bulk[k].kind = "CREATE" THEN ToString(k) ELSE ""
 Kinds == {"CREATE", "ADD_META", "REVERT", "DEL_META"}
 
 \* did element k of the request fail, as observed: not executable, or its backend call returned an error
@@ -30,7 +34,11 @@ Failing(r) ==
                                           /\ \A k \in 1..MinLen(r, p) : r.results[k].ok = ~FailedObs(r, k))
         \cup T("C18_StopsAtFailure", ~r.cont => \A j \in 1..Len(r.calls) : \A k \in 1..(r.calls[j].el - 1) : ~FailedObs(r, k))
         \cup T("C18_SignalsFailure", (r.status = 400) = (\E k \in 1..p : FailedObs(r, k)))
-        \cup T("Conf_CallOutcomeAsPlanned", \A j \in 1..Len(r.calls) : r.calls[j].err = r.bulk[r.calls[j].el].fail \/ r.ik)
+        \cup T("C18_ElementsIndependent", \A j \in 1..Len(r.calls) :
+                  LET k == r.calls[j].el IN
+                  k \in 1..Len(r.bulk) => /\ r.calls[j].ik = ExpIk(r, k)
+                                           /\ r.calls[j].attr = ExpAttr(r, k))
+        \cup T("Conf_CallOutcomeAsPlanned", \A j \in 1..Len(r.calls) : r.calls[j].err = r.bulk[r.calls[j].el].fail \/ r.pat = "all")
 
 OInit == l = 0 /\ viol = {} /\ cnt = [n \in Names |-> 0] /\ TLCSet(1, {}) /\ TLCSet(2, [n \in Names |-> 0])
 ONext ==
